@@ -119,7 +119,7 @@ BUDGET = {  # (leaves, two-leaf formulas, size-3 formulas, calls per formula, st
     ("thorough", "F3const"): (None, 120, 60, 5, 64),
     ("thorough", "F3obj"): (None, 100, 50, 5, 64),
     ("thorough", "F2clash"): (None, 150, 60, None, 64),
-    ("thorough", "F2const"): (None, None, 100, None, 64),
+    ("thorough", "F2const"): (None, None, 60, None, 32),
     ("quick", "F2const"): (8, 12, 4, 2, 32),
     ("quick", "F2"): (10, 30, 12, 2, 32),
     ("quick", "F3const"): (8, 14, 6, 2, 32),
@@ -489,9 +489,9 @@ def generated_worlds(rng, tier):
     for _ in range({"quick": 60, "thorough": 600}[tier]):
         w = gen_world_t(rng, max_actions=2)
         worlds.append(build_world_b(rng, w, n_states=4, calls_per_action=4))
-    for _ in range({"quick": 14, "thorough": 150}[tier]):
+    for _ in range({"quick": 14, "thorough": 100}[tier]):
         worlds.append(build_alias_b(rng, n_states=3, calls_per_action=4))
-    for _ in range({"quick": 8, "thorough": 100}[tier]):
+    for _ in range({"quick": 8, "thorough": 60}[tier]):
         worlds.append(gen_keyed_world(rng))
     return worlds
 
